@@ -81,6 +81,49 @@ Theorem c15_best_metric_symmetry :
 Proof. exact best_metric_mode_symmetry. Qed.
 Print Assumptions c15_best_metric_symmetry.
 
+(* DEHB _selection: same winner; and the selection is "target wins iff it is no worse" *)
+Theorem c15_dehb_selection_symmetry :
+  forall ds trial target m tm,
+  dehb_selection Max ds trial target (- m) (option_map Qopp tm) = dehb_selection Min ds trial target m tm.
+Proof. exact dehb_selection_mode_symmetry. Qed.
+Print Assumptions c15_dehb_selection_symmetry.
+
+Theorem c15_dehb_selection_rule :
+  forall md trial target m tm,
+  dehb_selection md true trial target m (Some tm) = if no_worse md tm m then target else trial.
+Proof. exact dehb_selection_rule. Qed.
+Print Assumptions c15_dehb_selection_rule.
+
+(* regularized evolution: same internal score, hence same population and same parents *)
+Theorem c15_rea_update_symmetry :
+  forall n pop trial m, rea_update Max n pop trial (- m) = rea_update Min n pop trial m.
+Proof. exact rea_update_mode_symmetry. Qed.
+Print Assumptions c15_rea_update_symmetry.
+
+(* MOASHA per-metric modes: flipping the mode of any subset of the metrics and negating exactly
+   those metric values leaves the signed metric vector handed to the rung system unchanged *)
+Theorem c15_moasha_metric_dict_symmetry :
+  forall mask modes vals,
+  moasha_metric_dict (flip_modes mask modes) (negate_vals mask vals) = moasha_metric_dict modes vals.
+Proof. exact moasha_metric_dict_mode_symmetry. Qed.
+Print Assumptions c15_moasha_metric_dict_symmetry.
+
+(* ExperimentResult.best_config: argmax of the negated column = argmin of the column (first occurrence) *)
+Theorem c15_best_config_symmetry : forall l, best_index Max (map Qopp l) = best_index Min l.
+Proof. exact best_index_mode_symmetry. Qed.
+Print Assumptions c15_best_config_symmetry.
+
+(* the promotion-type rung system as a whole (minimal own model of PromotionRungSystem): for EVERY
+   sequence of on_task_schedule / on_task_add / on_task_report / on_task_remove calls, mode max on
+   negated metrics gives the same answers (promoted trial, resume level, milestone, pause/continue,
+   errors) and the same state with negated metrics, same order and same promoted flags *)
+Theorem c15_promotion_system_symmetry :
+  forall max_t evs sys, pq_ok (ps_rungs sys) ->
+  prun Max max_t (pneg_sys sys) (map pneg_event evs) =
+    (pneg_sys (fst (prun Min max_t sys evs)), snd (prun Min max_t sys evs)).
+Proof. exact promotion_mode_symmetry. Qed.
+Print Assumptions c15_promotion_system_symmetry.
+
 (* non-vacuity: a run with a tie at a rung, a stop, and the mirrored run *)
 Example c15_example :
   let cfg := {| c_mode := Min; c_max_t := 9; c_per_bracket := false; c_rush := Some 1%Z |} in
@@ -92,7 +135,15 @@ Example c15_example :
   outcomes (with_mode Max cfg) (init_state (with_mode Max cfg) [1; 3]%Z 1) (map neg_event evs) =
     outcomes cfg (init_state cfg [1; 3]%Z 1) evs /\
   get_top_list [(1%Z, Some (3 # 1)); (2%Z, None); (3%Z, Some (1 # 1)); (4%Z, Some (3 # 1))] 2 Min = ([3; 1]%Z, [2; 4]%Z) /\
-  best_metric_found Max (neg_table [(1%Z, [3 # 1; 2 # 1]); (2%Z, [2 # 1; 5 # 1])]) = Some (1%Z, Some (- (2 # 1))).
+  best_metric_found Max (neg_table [(1%Z, [3 # 1; 2 # 1]); (2%Z, [2 # 1; 5 # 1])]) = Some (1%Z, Some (- (2 # 1))) /\
+  (let sys := {| ps_rungs := [{| pr_level := 3; pr_quant := 1 # 3; pr_data := [] |};
+                              {| pr_level := 1; pr_quant := 1 # 3; pr_data := [] |}]; ps_running := [] |} in
+   pq_ok (ps_rungs sys) /\
+   snd (prun Min 9 sys [PAdd 0 0 None; PAdd 1 0 None; PAdd 2 0 None; PReport 0 1 5; PReport 1 1 7;
+                        PReport 2 1 (9 # 2); PSchedule; PSchedule]) =
+     [POAdd true; POAdd true; POAdd true; POReport (inl (false, true, Some 3%Z, false));
+      POReport (inl (false, true, Some 3%Z, false)); POReport (inl (false, true, Some 3%Z, false));
+      POSched (SPromote 2 1 3); POSched SNone]).
 Proof.
   vm_compute. repeat split; try reflexivity; repeat constructor.
 Qed.
